@@ -7,8 +7,15 @@ def run(tier, seed):
     from pyvc import rx_obligations
     import contracts.lexer as LX
 
-    res = lexreplay.attach(run_functions(LX.C09_FUNCTIONS, "C09/smt", tier))
+    import contracts.parser_core  # noqa: F401
+    res = lexreplay.attach(run_functions(LX.C09_FUNCTIONS + ["CLexer.input", "CLexer._init_state"], "C09/smt", tier))
     res.add(rx_obligations.c09_rx_obligations(tier))
+    from props import ppline
+    pl = ppline.obligations(tier)
+    for o in pl.obs:
+        o.name = "C09/" + o.name
+    res.add(pl)
+
     res.assumptions.append("CLexer._handle_ppline (the #line sub-scanner) is under an ASSUMED contract (frame, progress, line-start reset); "
                            "its body is not verified in this revision")
     return res
